@@ -63,6 +63,15 @@ def canonicalRecord (decl : List VertexElement) (si : Nat) (rec : Bytes) : Bool 
 def chunks (n : Nat) (count : Nat) (data : Bytes) : List Bytes :=
   (List.range count).map fun k => (data.drop (k * n)).take n
 
+/-- array-based evaluation of `chunks` for the compiled driver -/
+def chunksA (n count : Nat) (data : Bytes) : List Bytes :=
+  let a := data.toArray
+  (List.range count).map fun k => sliceA a (k * n) n
+
+@[csimp] theorem chunks_eq_A : @chunks = @chunksA := by
+  funext n count data
+  simp only [chunks, chunksA, sliceA_eq]
+
 def canonicalMesh (m : AMesh) : Bool :=
   m.decl.all (fun e => writable e.vertexUsage e.vertexType) && disjointElems m.decl &&
   (List.zip (List.range m.streams.length) m.streams).all fun (si, s) =>
@@ -133,6 +142,10 @@ def applyEdit (m : AbstractModel) : AEdit → Option AbstractModel
     let c ← sh.shapeMeshCount.get? lod
     let start := (meshStart l part).toUInt32
     let n := bases.length
+    -- shape values are u16 and count from the mesh's start index: an edit whose indices do not
+    -- fit is not expressible in the format (the code panics on the overflow / would wrap)
+    if (meshStart l part) + mesh.vertexCount.toNat + n > 65536 ||
+       bases.any (fun b => (meshStart l part) + b.toNat ≥ 65536) then none else
     let sh' := { sh with
       shapeMeshStartIndex :=
         if smi == 0 then sh.shapeMeshStartIndex.set lod m.shapeMeshes.length.toUInt16
